@@ -3,7 +3,7 @@ From Coq Require Import String ZArith List Bool PrimFloat.
 From NSL Require Import Base.Types Base.Syntax Model.PyNum Model.IR Model.VM Model.PyTree Model.Elab Model.Lower Spec.RefSem
      Harness.RunLib Proofs.OpsAgree Proofs.LowerExprProofs Proofs.ElabExprProofs Proofs.ReturnExprProofs Proofs.CallAgreeProofs
      Proofs.ReturnExprExample Harness.FragLib Proofs.LowerStmtProofs Proofs.ElabStmtProofs Proofs.StraightLineProofs Proofs.StraightLineExample
-     Proofs.ForwardProofs Harness.FwdLib Harness.FragLib2 Model.Opt.
+     Proofs.ForwardProofs Harness.FwdLib Harness.FragLib2 Model.Opt Proofs.FlowLowerProofs Proofs.FlowFuncProofs Harness.FlowLib.
 From NSLDyn Require Gen_VM Agree_VM Gen_Shapes.
 Import ListNotations.
 
@@ -133,6 +133,27 @@ Example C01_straight_line_instance : forall P,
                 exists n, forall fuel', n <= fuel' -> run fuel' P sl_F 0 (call_frame sl_ws (init_regs sl_F)) sl_vs = Done (v_of v) vs'.
 Proof. exact sl_conclusion. Qed.
 
+(** PARTIAL (5): the lowering of CONDITIONALS is correct (typed AST to IR).  For every typed function whose body is a
+    sequence of declarations, assignments, blocks and if / if-else statements (conditions and right-hand sides pure; blocks
+    and branches contain assignments, blocks and conditionals, nested to any depth up to the index n) followed by a return:
+    whatever IR function F the lowering model produces, running F on the VM model from its first instruction performs
+    exactly what [topexec_list] prescribes -- evaluate the condition with the VM's operators, take the branch its
+    truth value selects, perform the assignments in order -- and returns the value of the returned expression.  The proof
+    follows the lowering through its blocks and PATCHED branch targets: [fok] (references of constants, blocks and
+    instructions pairwise distinct and below the counter) is preserved by the five moves of the lowering state (pool a
+    constant, emit, register a local, start a block, patch the targets of a branch); the flat code only grows and earlier
+    instructions are only changed by patches of their own construct ([upd_layout]); a block's offset is fixed when it is
+    created ([boffs]); executions with jumps ([jruns]) are composed from the straight-line executions of the parts and
+    the two branch instructions.  [flow_in_fragment] decides the hypotheses and is evaluated by the check on generated
+    functions.  Missing: the source side (elaboration / reference semantics) of conditionals, loops, calls. *)
+Theorem C01_conditional_lowering_partial : forall structs gl (f : tfunc) n l te F,
+  tf_body f = l ++ [TRet (Some te)] -> forallb (top_ok n) l = true -> tpure te = true -> lower_func structs gl f = LOk F ->
+  forall P argv vs locals' V' A' vs' v,
+    topexec_list structs gl (map snd (tf_args f)) n (fn_consts F) [] l [] argv vs = Some (locals', V', A', vs') ->
+    teval structs gl (map snd (tf_args f)) (fn_consts F) locals' (mkfr V' A') vs' te = Ok v ->
+    exists N, forall fuel, N <= fuel -> run fuel P F 0 {| regs := init_regs F; vars := []; fargs := argv |} vs = Done v vs'.
+Proof. exact flow_function_correct. Qed.
+
 (** non-vacuity: 7 / 2 and -7 / 2 truncate; mixed arithmetic promotes; % on non-negative operands *)
 Example C01_examples :
   eval_binop ODiv (RInt 7) (RInt 2) = ROk (RInt 3) /\ eval_binop ODiv (RInt (-7)) (RInt 2) = ROk (RInt (-3)) /\
@@ -144,4 +165,5 @@ Eval compute in "ASSUMPTIONS C01_operators_agree_partial"%string. Print Assumpti
 Eval compute in "ASSUMPTIONS C01_selected_arm_is_source_arm_partial"%string. Print Assumptions C01_selected_arm_is_source_arm_partial.
 Eval compute in "ASSUMPTIONS C01_return_expression_functions_partial"%string. Print Assumptions C01_return_expression_functions_partial.
 Eval compute in "ASSUMPTIONS C01_straight_line_functions_partial"%string. Print Assumptions C01_straight_line_functions_partial.
+Eval compute in "ASSUMPTIONS C01_conditional_lowering_partial"%string. Print Assumptions C01_conditional_lowering_partial.
 Eval compute in "END"%string.
